@@ -556,7 +556,13 @@ func c17Types() []c17Type {
 			return s
 		}, func() io.Serializable { return &state.MPTRoot{} },
 			func(v io.Serializable) (string, int) { return hx(v.(*state.MPTRoot).Hash().BytesBE()), -1 }),
-		bin("mptnode", mptNode, func() io.Serializable { return &mpt.NodeObject{} }, nil),
+		bin("mptnode", mptNode, func() io.Serializable { return &mpt.NodeObject{} }, func(v io.Serializable) (string, int) {
+			n := v.(*mpt.NodeObject).Node
+			if n == nil || n.Type() == mpt.EmptyT || n.Type() == mpt.HashT {
+				return "", -1
+			}
+			return hx(n.Hash().BytesBE()), n.Size() + 1 // Size() does not count the type byte
+		}),
 		bin("notification", func(r *rng) io.Serializable {
 			budget := 12
 			arr := stackitem.NewArray([]stackitem.Item{c17GenItem(r, 2, &budget).build(), stackitem.Make(r.intn(100))})
